@@ -91,12 +91,39 @@ type Term struct {
 	evalVal uint64
 }
 
-type termCtx struct {
-	n   int
-	ver int // model version for eval memo
+type termKey struct {
+	op      top
+	k       tkind
+	w       int
+	a, b, c int
+	val     uint64
+	name    string
+	tbl     *table
 }
 
+type termCtx struct {
+	n    int
+	ver  int // model version for eval memo
+	cons map[termKey]*Term
+}
+
+func tid(t *Term) int {
+	if t == nil {
+		return 0
+	}
+	return t.id
+}
+
+// mk hash-conses: structurally identical terms are the same pointer.
 func (c *termCtx) mk(t *Term) *Term {
+	if c.cons == nil {
+		c.cons = map[termKey]*Term{}
+	}
+	key := termKey{t.op, t.k, t.w, tid(t.a), tid(t.b), tid(t.c), t.val, t.name, t.tbl}
+	if old, ok := c.cons[key]; ok {
+		return old
+	}
+	c.cons[key] = t
 	c.n++
 	t.id = c.n
 	t.size = 1
@@ -326,7 +353,33 @@ func (c *termCtx) op2(op top, k tkind, w int, a, b *Term) *Term {
 	}
 	// light simplifications
 	switch op {
+	case oFEq:
+		if a == b {
+			return c.not(c.op1(oFIsNaN, kBool, 0, a))
+		}
+	case oFLe:
+		if a == b {
+			return c.not(c.op1(oFIsNaN, kBool, 0, a))
+		}
+	case oFLt:
+		if a == b {
+			return c.boolConst(false)
+		}
+	case oUle, oSle:
+		if a == b {
+			return c.boolConst(true)
+		}
+	case oUlt, oSlt:
+		if a == b {
+			return c.boolConst(false)
+		}
 	case oBAnd:
+		if a == b {
+			return a
+		}
+		if (a.op == oBNot && a.a == b) || (b.op == oBNot && b.a == a) {
+			return c.boolConst(false)
+		}
 		if a.isTrue() {
 			return b
 		}
@@ -337,6 +390,12 @@ func (c *termCtx) op2(op top, k tkind, w int, a, b *Term) *Term {
 			return c.boolConst(false)
 		}
 	case oBOr:
+		if a == b {
+			return a
+		}
+		if (a.op == oBNot && a.a == b) || (b.op == oBNot && b.a == a) {
+			return c.boolConst(true)
+		}
 		if a.isFalse() {
 			return b
 		}
